@@ -95,6 +95,9 @@ def point_frame(n, pattern, extras, scale=1.0):
         d['enthalpy'] = [round(40.0 - 1.5 * i, 3) for i in range(n)]
     if extras in ('text', 'both'):
         d['remark'] = [f'pt{i}' for i in range(n)]
+    if extras == 'early-name':              # a column whose name sorts BEFORE 'branch'
+        d['alpha'] = [round(40.0 - 1.5 * i, 3) for i in range(n)]
+        d['Zeta'] = [round(1.0 + 0.5 * i, 3) for i in range(n)]     # upper case sorts before lower case
     if extras == 'text-numeric':            # labels that spell numbers stay labels
         d['label'] = [f'{i + 1:03d}' for i in range(n)]
     if extras == 'text-numeric-gaps':
@@ -113,6 +116,7 @@ DATA_SHAPES = [(n, pat, ex) for n in (1, 2, 4, 7) for pat in ('all-ads', 'all-de
 # structural additions (kept after the original product so that thinned enumerations stay what they were)
 ZERO_SHAPES = [(n, pat, ex) for n in (2, 4, 7) for pat in ('ads-from-zero', 'hysteresis-to-zero') for ex in ('none', 'numeric')
                if not (n < 4 and pat == 'hysteresis-to-zero')]
+EARLY_SHAPES = [(n, pat, 'early-name') for n in (4, 7) for pat in ('guessable', 'all-ads', 'all-des', 'user-alternating')]
 TEXTNUM_SHAPES = [(n, 'all-ads', ex) for n in (1, 4, 7) for ex in ('text-numeric', 'text-numeric-gaps')]
 
 
